@@ -1,6 +1,6 @@
 (* Proofs about the models of C04/Simplify.v. *)
 From Coq Require Import ZArith List Bool Lia.
-From MirV Require Import Base.W64 Mir.Opcode Mir.Syntax Mir.Sem C01.InsnSem C04.Simplify.
+From MirV Require Import Base.W64 Mir.Opcode Mir.Syntax Mir.Sem C01.InsnSem C01.Peephole C01.PeepholeProofs C04.Simplify.
 Import ListNotations.
 Local Open Scope Z_scope.
 
@@ -410,3 +410,25 @@ Proof.
           I JMP [Olabel 1%positive]], 1%positive, 0%nat.
   split; [intro l; reflexivity | repeat split; reflexivity].
 Qed.
+
+(* ---------------------------------------------------------------- 3b. strength reduction by 2^n *)
+Lemma strength_ok_sound : forall p, strength_ok p = true -> acts_as_shift (fst p) (snd p).
+Proof.
+  intros [o o'] H. destruct o; try discriminate H; destruct o'; try discriminate H;
+    cbn [fst snd]; (split; [reflexivity|]); (split; [reflexivity|]); intros y n Hy Hn.
+  - (* MUL -> LSH *) split; [cbn [int_val]; discriminate|]. apply mul_pow2_is_lsh. lia.
+  - (* UDIV -> URSH *) split; [|apply udiv_pow2_is_ursh; [exact Hy|lia]].
+    cbn [int_val]. unfold udivw.
+    assert (0 < 2 ^ n) by (apply Z.pow_pos_nonneg; lia).
+    destruct (Z.eqb_spec (2 ^ n) 0); [lia|discriminate].
+Qed.
+
+(* an arithmetic right shift rounds towards minus infinity, DIV truncates: -9 / 8 *)
+Lemma div_is_not_rsh : ~ acts_as_shift DIV RSH.
+Proof.
+  intros (_ & _ & H). destruct (H (2 ^ 64 - 9) 3) as [_ E]; [vm_compute; split; congruence|lia|].
+  vm_compute in E. discriminate E.
+Qed.
+
+Lemma strength_ok_nonvacuous : forallb strength_ok [(MUL, LSH); (UDIV, URSH)] = true.
+Proof. reflexivity. Qed.
